@@ -477,7 +477,27 @@ func (h h6) Gen(prop, tier string, r *simrt.Rng) (any, simrt.Config) {
 	}
 	// ---- C14
 	c.MaxDurationNs = int64(simrt.Pick(r, 300, 600, 1100))*ms + 10*ms + odd(r)
-	switch r.Intn(8) {
+	switch r.Intn(9) {
+	case 8: // gaussian --peak-rate: N/<duration> is the rate at the peak
+		n := simrt.Pick(r, 1, 2, 3, 10)
+		ds := simrt.Pick(r, "s", "1s", "100ms", "10ms", "2ms", "1500us", "500us", "2s", "250ms")
+		d, _ := time.ParseDuration(strings.TrimPrefix("1"+ds, "11"))
+		if ds == "s" {
+			d = time.Second
+		} else {
+			d, _ = time.ParseDuration(ds)
+		}
+		s := fmt.Sprintf("%d/%s", n, ds)
+		c.Mode = "gaussian"
+		c.Flags = map[string]string{"peak-rate": s, "peak": "12h", "distribution": "none", "iteration-frequency": "1s"}
+		c.Driver = "api"
+		c.Concurrency = 4
+		c.StartOffsetNs = int64(r.Intn(3))*int64(24*time.Hour) + int64(12*time.Hour) - int64(2*time.Second)
+		c.MaxDurationNs = int64(4*time.Second) + 10*ms + odd(r)
+		c.Input = &InputExpect{Kind: "peakrate", Input: s, Spelled: true, SpelledN: n, SpelledIvNs: int64(d)}
+		c.Prog = ScenarioProg{Iter: []IterPlan{{}}}
+		sc.MaxSimNs += c.StartOffsetNs
+		sc.MaxSteps = 1500000
 	case 0, 1, 2: // rate strings through the constant (or ramp) trigger
 		s, spelled, n, iv := genRateString(r)
 		c.Mode = "constant"
